@@ -252,17 +252,16 @@ def cell_list(ctx, rule):
                 allpairs_fn=allpairs_fn, disjoint_fn=disjoint_fn)
 
 
-def run(ctx):
-    prog = ctx.prog
-    shared = cell_list(ctx, lambda name: 'C11.' + name)
-    mod, fn, env, dist_tbl, chk = (shared[k] for k in ('mod', 'fn', 'env', 'dist_tbl', 'chk'))
-    allpairs_fn, disjoint_fn = shared['allpairs_fn'], shared['disjoint_fn']
-
-    # ---------------------------------------------------------------- R4
+def criterion_rules(ctx, rule, shared):
+    """The pair criterion is symmetric in its two atoms: it measures their
+    squared distance, reads only the two elements, looks rules up under keys
+    whose mirror image has the same value, and answers True only under a
+    distance test."""
+    mod, chk, dist_tbl = shared['mod'], shared['chk'], shared['dist_tbl']
     # check_distance: only symmetric uses of (atom1, atom2)
     params = [a.arg for a in chk.args.args if a.arg != 'self']
     sq_calls = [c for c in calls_in(chk) if (call_name(c) or '').endswith('squared_distance')]
-    ctx.ob('C11.R4', 'criterion:uses-squared-distance',
+    ctx.ob(rule, 'criterion:uses-squared-distance',
            len(sq_calls) == 1 and sorted(norm(a) for a in sq_calls[0].args) == sorted(params),
            'the pair criterion measures the squared distance of exactly its two atoms',
            mod, chk)
@@ -277,14 +276,14 @@ def run(ctx):
             if isinstance(par, ast.Call) and par in sq_calls:
                 continue
             other_ok, bad = False, par
-    ctx.ob('C11.R4', 'criterion:symmetric-inputs', other_ok,
+    ctx.ob(rule, 'criterion:symmetric-inputs', other_ok,
            'besides the distance the criterion reads only the two elements',
            mod, bad or chk)
     # every rule key is a palindrome pair or has its mirror
     for k in dist_tbl:
         parts = k.split('-')
         mirror = '-'.join(reversed(parts))
-        ctx.ob('C11.R4', 'rule-key-mirrored:' + k, mirror in dist_tbl and
+        ctx.ob(rule, 'rule-key-mirrored:' + k, mirror in dist_tbl and
                abs(dist_tbl[mirror] - dist_tbl[k]) < 1e-12,
                'distance rule %s has the same value for %s' % (k, mirror), mod, chk)
     # element-order-sensitive operations on the key: only count()/membership
@@ -297,7 +296,7 @@ def run(ctx):
         if isinstance(node, ast.Subscript) and isinstance(node.value, ast.Name) \
                 and node.value.id == 'key':
             key_uses_ok = False
-    ctx.ob('C11.R4', 'criterion:key-uses-order-free', key_uses_ok,
+    ctx.ob(rule, 'criterion:key-uses-order-free', key_uses_ok,
            'the element-pair key is used only for counting and table membership', mod, chk)
     # every `return True` is under a `sq_dist < <rule>` test; last return False
     rets = [r for r in walk_no_nested(chk) if isinstance(r, ast.Return)]
@@ -305,10 +304,20 @@ def run(ctx):
         if isinstance(r.value, ast.Constant) and r.value.value is True:
             facts = fact_texts(r, chk)
             ok = any(p and ('<' in t) and 'sq_dist' in t.split('<')[0] for t, p in facts)
-            ctx.ob('C11.R4', 'criterion:true-needs-distance:' + ';'.join(
+            ctx.ob(rule, 'criterion:true-needs-distance:' + ';'.join(
                 t for t, p in facts if p)[:120], ok,
                 'a positive answer is dominated by a distance-below-threshold test',
                 mod, r)
+
+
+def run(ctx):
+    prog = ctx.prog
+    shared = cell_list(ctx, lambda name: 'C11.' + name)
+    mod, fn, env, dist_tbl, chk = (shared[k] for k in ('mod', 'fn', 'env', 'dist_tbl', 'chk'))
+    allpairs_fn, disjoint_fn = shared['allpairs_fn'], shared['disjoint_fn']
+
+    # ---------------------------------------------------------------- R4
+    criterion_rules(ctx, 'C11.R4', shared)
     # the pair routine
     pair = mod.func('BondMaker._find_bonds_for_atoms')
     fact_kind = common.pair_fact_kind(pair)
